@@ -1,23 +1,28 @@
 SPECIFICATION Spec
 CONSTANTS
+  Dim = 2
   MaxNodes = 3
   MinNodes = 1
   Widths = {3}
   LinWidths = {2}
   Ks = {1, 3}
-  BNs = {FALSE, TRUE}
+  BNs = {FALSE}
   C0 = 3
   Sp0 = 4
   AllowRelu = FALSE
   AllowPool = FALSE
   AllowAdd = TRUE
   AllowDw = TRUE
+  AllowReuse = FALSE
   TupMode = "ne16"
   WType = "pl"
   SelMode = "rot"
+  MaxHist = 0
+  Walk = "fixed"
   Lin = "fixed"
-  GuardF40 = TRUE
+  GuardF40 = FALSE
   GuardF05 = TRUE
+  GuardReuse = TRUE
 INVARIANT InvRepIsRep
 INVARIANT InvPlumb
 INVARIANT InvPlumbGroups
@@ -25,3 +30,4 @@ INVARIANT InvAddSameGrid
 INVARIANT InvOutputFloat
 INVARIANT InvCostExact
 INVARIANT InvSpecKeys
+INVARIANT InvPerInvocation
